@@ -66,6 +66,9 @@ def gen_scripts(ctx, quick):
         tasks = [{"id": "t%d" % (i + 1), "prio": prio, "variant": rnd.choice(["run", "start"]), "out": "ok", "done": 1}
                  for i in range(nb)]
         scripts.append({"tasks": tasks, "threshold": rnd.choice([2, 3]), "expiry": False, "policy": [], "burst": True, "holdMs": 2})
+    # storm scripts: signalled microtasks whose done function is called by four goroutines at the same instant
+    for k in range(2 if quick else 6):
+        scripts.append({"tasks": [], "threshold": rnd.choice([2, 3]), "expiry": False, "policy": [], "storm": 1500 if quick else 6000})
     return scripts
 
 
@@ -83,6 +86,8 @@ def sig_of(hist, ej):
             extra += ":" + str(ev.get("class"))
     if what == "final":
         extra = ":mod=%s" % ev.get("modCount")
+    if what == "idleprobe":
+        extra = ":%s:%s" % (ev.get("kind"), "late" if ev.get("ms", 0) > 1500 else "ok")
     if what == "probe":
         extra = ":late" if ev.get("ms", 0) > 1500 else ":ok"
     if what == "held":
@@ -141,7 +146,9 @@ def run(ctx):
         "samples": scripts[:1] + ([hists[0]] if hists else []),
         "exhaustive": False,
     }, ["concurrency limits 2 and 3; max delay 10 s (never expires) or 60 ms (expiry scripts: only accounting is judged)",
-        "admission probes after quiescence: `limit` probes admitted within 1.5 s, one more held for 200 ms",
+        "admission probes after quiescence: single low/medium priority microtasks (Run/Start/Signal variants) on the idle "
+        "scheduler and then `limit` probes together admitted within 1.5 s, one more held for 200 ms",
+        "storm scripts: the done function of 1500 (thorough: 6000) signalled microtasks is called by 4 goroutines at once",
         "yield points compiled in with -tags verif"])
 
 
